@@ -51,8 +51,10 @@ class Inst:
     pass
 
 
-def build_installation(ctx, rng, root):
+def build_installation(ctx, rng, root, shape="normal"):
+    """shape: normal | huge-index (one index with > 65536 entries) | many-files (> 64 index files behind one handle)"""
     inst = Inst()
+    inst.shape = shape
     inst.platform = rng.choice(list(sq.PLATFORMS))
     pid = sq.PLATFORMS[inst.platform]
     inst.exps = sorted(rng.sample(range(1, 10), rng.choice([0, 1, 2, 3, 9])))
@@ -69,15 +71,22 @@ def build_installation(ctx, rng, root):
     inst.payload = {}  # (exp, cat, chunk, dat, offset) -> bytes
     inst.bytes = 0
     groups = set()
-    for _ in range(rng.randint(2, 7)):
+    ngroups = rng.randint(2, 7) if shape != "many-files" else rng.randint(70, 95)
+    for gi in range(ngroups):
         exp = rng.choice([0] + inst.exps)
         cat = rng.choice(CATS)
-        chunk = rng.choice([0, 0, 1, 2, rng.randrange(10)])
+        chunk = rng.choice([0, 0, 1, 2, rng.randrange(10)]) if shape != "many-files" else rng.randrange(10)
         if (exp, cat, chunk) in groups:
             continue
         groups.add((exp, cat, chunk))
         kinds = rng.choice([(1,), (2,), (1, 2)])
         n = rng.choice([1, 2, 10, 60, 300]) if rng.random() < 0.93 else 2000
+        if shape == "many-files":
+            n = rng.choice([1, 2, 5])
+        huge = shape == "huge-index" and gi == 0
+        if huge:
+            kinds = (rng.choice([1, 2]),)
+            n = 40
         cid = sq.CATEGORIES[cat]
         dats = {}
         paths = [gen_path(rng, cat, exp) for _ in range(n)]
@@ -113,6 +122,26 @@ def build_installation(ctx, rng, root):
                 table.setdefault(h, []).append((d, o))
                 inst.stored.append((p, exp, cat, chunk, kind))
             rng.shuffle(ents)
+            if huge:
+                # > 65536 entries: filler paths share the few real locations; the planted paths are spread
+                # over the whole table, in particular around the 16-bit boundary and at the very end
+                total = rng.choice([65536, 65537, 66000, 70001])
+                planted = list(ents)
+                filler = []
+                real = list(locs.values())
+                inst.boundary = []
+                for k in range(total - len(planted)):
+                    fp = "%s/%sfill/%06d.dat" % (cat, ("ex%d/" % exp) if exp else "", k)
+                    h = sq.hash1(fp) if kind == 1 else sq.hash2(fp)
+                    d, o = real[k % len(real)]
+                    filler.append((h, d, o, False))
+                    if k in (0, 65500, 65534, 65535, 65536, total - len(planted) - 1) or k % 9973 == 0:
+                        table.setdefault(h, []).append((d, o))
+                        inst.stored.append((fp, exp, cat, chunk, kind))
+                        inst.boundary.append(fp)
+                # planted entries at the front, in the middle, after the boundary and at the end
+                q = len(planted) // 4
+                ents = planted[:q] + filler[:65530] + planted[q:2 * q] + filler[65530:65540] + planted[2 * q:3 * q] + filler[65540:] + planted[3 * q:]
             b = sq.index_file(kind, ents, pid, ndats=max(dats) + 1)
             inst.bytes += len(b)
             open(os.path.join(rd, sq.index_filename(cid, exp, chunk, inst.platform, kind)), "wb").write(b)
@@ -203,7 +232,12 @@ def shard(ctx):
     rng, P = ctx.rng, ctx.params
     for i in range(P["n"]):
         root = ctx.path("game%d" % i)
-        inst = build_installation(ctx, rng, root)
+        shape = "normal"
+        if i == 0:
+            shape = "many-files" if ctx.index % 2 == 0 else "huge-index"
+        elif ctx.tier == "thorough" and i % 15 == 1:
+            shape = rng.choice(["many-files", "huge-index"])
+        inst = build_installation(ctx, rng, root, shape)
         try:
             run_installation(ctx, rng, inst, root, P["nq"], i)
         finally:
@@ -212,6 +246,16 @@ def shard(ctx):
 
 def run_installation(ctx, rng, inst, root, nq, ino):
     qs = make_queries(rng, inst, nq)
+    if getattr(inst, "boundary", None):
+        qs += [(p, "stored") for p in inst.boundary]
+    if inst.shape == "many-files":
+        # one stored path of every index file, so that a single handle really loads them all
+        seen = set()
+        for (p, exp, cat, chunk, kind) in inst.stored:
+            if (exp, cat, chunk, kind) not in seen:
+                seen.add((exp, cat, chunk, kind))
+                qs.append((p, "stored"))
+    ctx.stats.classes["shape:" + inst.shape] += 1
     hist = [(rng.choice(["exists", "find_offset", "extract"]), p, cls) for p, cls in qs]
     # repeat some queries later in the history (hit after miss, miss after hit, warm cache)
     hist += [rng.choice(hist) for _ in range(len(hist) // 4)]
